@@ -113,8 +113,8 @@ Fixpoint run (st : state) (stages : list stage) : list stage_out :=
 
 Definition run0 (stages : list stage) : list stage_out := run (Cbar0, [], 0) stages.
 
-(* ---- independent ("top-down") cost of operating echelon base-stock levels, used only in the
-   unproved statement ssm_cost_is_long_run_cost_statement: echelon inventory position of stage j is
+(* ---- independent ("top-down") cost of operating echelon base-stock levels, used in the
+   statement C07_ssm_cost_is_long_run_cost (proved in SSMCost_proofs.v): echelon inventory position of stage j is
    min(S_j, echelon inventory level of stage j+1), IL_j = IP_j - D_j with independent lead-time demands,
    cost = sum_j h_j IL_j + (p + H) IL_1^-.  [rstages] = stages N, N-1, ..., 1; [up] = IL of the stage above. *)
 Fixpoint topdown (rstages : list (stage * Z)) (up : option Z) : Q :=
@@ -198,7 +198,7 @@ Definition ssm_params (xlo : Z) (xnum xext : nat) (p mu : Q) (order_sys order_li
   | _, _ => None
   end.
 
-(* ---- vocabulary of the two unproved statements (Props/C07.v) ---- *)
+(* ---- vocabulary of the two statements now proved in SSMCost_proofs.v (Props/C07.v) ---- *)
 Definition pmf_of (sg : stage) : list (Z * Q) := combine (sg_d sg) (sg_f sg).
 Definition pmf_conv (a b : list (Z * Q)) : list (Z * Q) :=
   flat_map (fun x => map (fun y => ((fst x + fst y)%Z, snd x * snd y)) b) a.
